@@ -506,7 +506,8 @@ func r13wrap(c *core.Ctx, models map[string]*builderModel) {
 			var hits, other []string
 			for _, sv := range m.allStores {
 				ap, vp := sv[0], sv[1]
-				uses := mentionsParam(vp, pi)
+				// the length of a list parameter (sizing the IE list made for it) is not a use of its elements
+				uses := mentionsParam(strings.ReplaceAll(vp, "call:builtin.len("+pi+")", "len"), pi)
 				if !uses {
 					continue
 				}
